@@ -178,6 +178,22 @@ theorem registry_batched_eq_sequential (cfg : Config) (cur : Nat) (vals : List V
       (Impl.computeRegistryProcessData cfg vals cur).indicesToEject.foldl (initiate_validator_exit_pure cfg cur) vals :=
   Lemmas.ejections_batched_eq_sequential cfg cur vals hsmall
 
+/-- `registry_first_loop_eq`: the whole first loop of the spec's `process_registry_updates` — validator by validator:
+mark eligible for the activation queue, then eject through `initiate_validator_exit` — equals what
+`ProcessEpochRegistryUpdates` does with the snapshot: batched ejections first, then all eligibility marks.
+(Uses `registry_batched_eq_sequential` and the fact that `initiate_validator_exit` neither reads nor writes
+`activation_eligibility_epoch`.) -/
+theorem registry_first_loop_eq (cfg : Config) (cur : Nat) (vals : List Validator)
+    (hsmall : Lemmas.EpochsSmall cfg cur vals) :
+    Impl.setEligibility (cur + 1) (Impl.computeRegistryProcessData cfg vals cur).indicesToSetActivationEligibility
+        (Impl.processEjections cfg (Impl.computeRegistryProcessData cfg vals cur).churnLimit
+          (Impl.computeRegistryProcessData cfg vals cur).exitQueueEnd
+          (Impl.computeRegistryProcessData cfg vals cur).exitQueueEndChurn
+          (Impl.computeRegistryProcessData cfg vals cur).indicesToEject vals) =
+      registry_eligibility_and_ejections_pure cfg cur vals := by
+  rw [registry_batched_eq_sequential cfg cur vals hsmall]
+  exact (Lemmas.first_loop_eq cfg cur vals).symm
+
 /-- non-vacuity of `EpochsSmall` -/
 example : Lemmas.EpochsSmall default 10 [default, { (default : Validator) with exit_epoch := 17 }] := by
   refine ⟨by decide, ?_⟩
